@@ -33,8 +33,8 @@ namespace vh
             long long r = static_cast<long long>(i) / nc, c = static_cast<long long>(i) % nc;
             if (r == 0 || r == nr - 1 || c == 0 || c == nc - 1)
                 return f["B"].as_int();
-            if (r == 1 || c % 2 == 1)
-                return f["L"].as_int();
+            if (r == 1 || (c % 2 == 1 && c >= f["c0"].as_int()))
+                return f["L"].as_int();   // (c0: first corridor column - varies how far the front has advanced when it first exceeds a given width)
             return f["W"].as_int();
         }
 
